@@ -377,7 +377,7 @@ def define_step_compares_unexpanded(ns, arg, env, lineno=None):
     key = name.lower()
     if key in ns and ns[key] != raw:
         raise RefSyntax(lineno, "redefinition (unexpanded comparison)")
-    if not isname(name):
+    if not isname(key):       # as in define_namespace_step
         raise RefSyntax(lineno, "illegal define name")
     try:
         value = subst(raw, ns, env)
